@@ -2437,6 +2437,20 @@ let too_large mps len =
   | Some m -> N.ltb m len
   | None -> false
 
+(** val sstate_partial : sstate -> bool **)
+
+let sstate_partial = function
+| SWrite k -> negb (N.eqb k N0)
+| _ -> false
+
+(** val has_partial : outbound -> bool **)
+
+let has_partial o =
+  (||)
+    ((||) (existsb (fun e -> sstate_partial e.ce_st) o.ob_ctl)
+      (existsb (fun e -> sstate_partial e.le_st) o.ob_rel))
+    (existsb (fun e -> sstate_partial e.re_st) o.ob_ret)
+
 (** val rOUND_TRIP_TIMEOUT_MS : n **)
 
 let rOUND_TRIP_TIMEOUT_MS =
@@ -4007,7 +4021,7 @@ type world = { w_sess : session; w_conn : bool; w_live : bool; w_event :
                n; w_now : n; w_inq : (n * bytes) list; w_last_arrival : 
                n; w_txbuf : bytes; w_script : (n * n) list; w_broker : 
                n; w_log : text list; w_handles : op list; w_waits : n;
-               w_envok : bool }
+               w_envok : bool; w_wire : bytes; w_poison : bool }
 
 (** val upd_sess : world -> session -> world **)
 
@@ -4016,7 +4030,7 @@ let upd_sess w s =
     w_now = w.w_now; w_inq = w.w_inq; w_last_arrival = w.w_last_arrival;
     w_txbuf = w.w_txbuf; w_script = w.w_script; w_broker = w.w_broker;
     w_log = w.w_log; w_handles = w.w_handles; w_waits = w.w_waits; w_envok =
-    w.w_envok }
+    w.w_envok; w_wire = w.w_wire; w_poison = w.w_poison }
 
 (** val upd_live : world -> bool -> bool -> n -> world **)
 
@@ -4024,7 +4038,8 @@ let upd_live w conn live ev =
   { w_sess = w.w_sess; w_conn = conn; w_live = live; w_event = ev; w_now =
     w.w_now; w_inq = w.w_inq; w_last_arrival = w.w_last_arrival; w_txbuf =
     w.w_txbuf; w_script = w.w_script; w_broker = w.w_broker; w_log = w.w_log;
-    w_handles = w.w_handles; w_waits = w.w_waits; w_envok = w.w_envok }
+    w_handles = w.w_handles; w_waits = w.w_waits; w_envok = w.w_envok;
+    w_wire = w.w_wire; w_poison = w.w_poison }
 
 (** val upd_log : world -> text -> world **)
 
@@ -4033,7 +4048,7 @@ let upd_log w l =
     w.w_event; w_now = w.w_now; w_inq = w.w_inq; w_last_arrival =
     w.w_last_arrival; w_txbuf = w.w_txbuf; w_script = w.w_script; w_broker =
     w.w_broker; w_log = (l :: w.w_log); w_handles = w.w_handles; w_waits =
-    w.w_waits; w_envok = w.w_envok }
+    w.w_waits; w_envok = w.w_envok; w_wire = w.w_wire; w_poison = w.w_poison }
 
 (** val upd_script : world -> (n * n) list -> world **)
 
@@ -4042,7 +4057,7 @@ let upd_script w sc =
     w.w_event; w_now = w.w_now; w_inq = w.w_inq; w_last_arrival =
     w.w_last_arrival; w_txbuf = w.w_txbuf; w_script = sc; w_broker =
     w.w_broker; w_log = w.w_log; w_handles = w.w_handles; w_waits =
-    w.w_waits; w_envok = w.w_envok }
+    w.w_waits; w_envok = w.w_envok; w_wire = w.w_wire; w_poison = w.w_poison }
 
 (** val upd_now : world -> n -> world **)
 
@@ -4051,7 +4066,7 @@ let upd_now w t =
     w.w_event; w_now = t; w_inq = w.w_inq; w_last_arrival = w.w_last_arrival;
     w_txbuf = w.w_txbuf; w_script = w.w_script; w_broker = w.w_broker;
     w_log = w.w_log; w_handles = w.w_handles; w_waits = w.w_waits; w_envok =
-    w.w_envok }
+    w.w_envok; w_wire = w.w_wire; w_poison = w.w_poison }
 
 (** val upd_inq : world -> (n * bytes) list -> n -> world **)
 
@@ -4059,7 +4074,8 @@ let upd_inq w q last =
   { w_sess = w.w_sess; w_conn = w.w_conn; w_live = w.w_live; w_event =
     w.w_event; w_now = w.w_now; w_inq = q; w_last_arrival = last; w_txbuf =
     w.w_txbuf; w_script = w.w_script; w_broker = w.w_broker; w_log = w.w_log;
-    w_handles = w.w_handles; w_waits = w.w_waits; w_envok = w.w_envok }
+    w_handles = w.w_handles; w_waits = w.w_waits; w_envok = w.w_envok;
+    w_wire = w.w_wire; w_poison = w.w_poison }
 
 (** val upd_txbuf : world -> bytes -> world **)
 
@@ -4068,7 +4084,7 @@ let upd_txbuf w b =
     w.w_event; w_now = w.w_now; w_inq = w.w_inq; w_last_arrival =
     w.w_last_arrival; w_txbuf = b; w_script = w.w_script; w_broker =
     w.w_broker; w_log = w.w_log; w_handles = w.w_handles; w_waits =
-    w.w_waits; w_envok = w.w_envok }
+    w.w_waits; w_envok = w.w_envok; w_wire = w.w_wire; w_poison = w.w_poison }
 
 (** val upd_broker : world -> n -> world **)
 
@@ -4077,7 +4093,7 @@ let upd_broker w m =
     w.w_event; w_now = w.w_now; w_inq = w.w_inq; w_last_arrival =
     w.w_last_arrival; w_txbuf = w.w_txbuf; w_script = w.w_script; w_broker =
     m; w_log = w.w_log; w_handles = w.w_handles; w_waits = w.w_waits;
-    w_envok = w.w_envok }
+    w_envok = w.w_envok; w_wire = w.w_wire; w_poison = w.w_poison }
 
 (** val upd_handles : world -> op list -> world **)
 
@@ -4086,7 +4102,7 @@ let upd_handles w h =
     w.w_event; w_now = w.w_now; w_inq = w.w_inq; w_last_arrival =
     w.w_last_arrival; w_txbuf = w.w_txbuf; w_script = w.w_script; w_broker =
     w.w_broker; w_log = w.w_log; w_handles = h; w_waits = w.w_waits;
-    w_envok = w.w_envok }
+    w_envok = w.w_envok; w_wire = w.w_wire; w_poison = w.w_poison }
 
 (** val upd_waits : world -> n -> world **)
 
@@ -4095,7 +4111,7 @@ let upd_waits w n0 =
     w.w_event; w_now = w.w_now; w_inq = w.w_inq; w_last_arrival =
     w.w_last_arrival; w_txbuf = w.w_txbuf; w_script = w.w_script; w_broker =
     w.w_broker; w_log = w.w_log; w_handles = w.w_handles; w_waits = n0;
-    w_envok = w.w_envok }
+    w_envok = w.w_envok; w_wire = w.w_wire; w_poison = w.w_poison }
 
 (** val upd_envok : world -> bool -> world **)
 
@@ -4104,7 +4120,25 @@ let upd_envok w b =
     w.w_event; w_now = w.w_now; w_inq = w.w_inq; w_last_arrival =
     w.w_last_arrival; w_txbuf = w.w_txbuf; w_script = w.w_script; w_broker =
     w.w_broker; w_log = w.w_log; w_handles = w.w_handles; w_waits =
-    w.w_waits; w_envok = b }
+    w.w_waits; w_envok = b; w_wire = w.w_wire; w_poison = w.w_poison }
+
+(** val upd_wire : world -> bytes -> world **)
+
+let upd_wire w b =
+  { w_sess = w.w_sess; w_conn = w.w_conn; w_live = w.w_live; w_event =
+    w.w_event; w_now = w.w_now; w_inq = w.w_inq; w_last_arrival =
+    w.w_last_arrival; w_txbuf = w.w_txbuf; w_script = w.w_script; w_broker =
+    w.w_broker; w_log = w.w_log; w_handles = w.w_handles; w_waits =
+    w.w_waits; w_envok = w.w_envok; w_wire = b; w_poison = w.w_poison }
+
+(** val upd_poison : world -> bool -> world **)
+
+let upd_poison w b =
+  { w_sess = w.w_sess; w_conn = w.w_conn; w_live = w.w_live; w_event =
+    w.w_event; w_now = w.w_now; w_inq = w.w_inq; w_last_arrival =
+    w.w_last_arrival; w_txbuf = w.w_txbuf; w_script = w.w_script; w_broker =
+    w.w_broker; w_log = w.w_log; w_handles = w.w_handles; w_waits =
+    w.w_waits; w_envok = w.w_envok; w_wire = w.w_wire; w_poison = b }
 
 (** val mAX_WAITS : n **)
 
@@ -4304,14 +4338,15 @@ let io_write bs w =
                  else let n0 = N.min (N.max amt (Npos XH)) len in
                       let acc = takeN n0 bs in
                       ((broker_feed
-                         (upd_log w1
-                           (app pre
-                             (app (show_N n0)
-                               (app
-                                 (s2t (String ((Ascii (false, false, false,
-                                   false, false, true, false, false)),
-                                   EmptyString))) (hex acc))))) acc), (WOk
-                      n0))
+                         (upd_wire
+                           (upd_log w1
+                             (app pre
+                               (app (show_N n0)
+                                 (app
+                                   (s2t (String ((Ascii (false, false, false,
+                                     false, false, true, false, false)),
+                                     EmptyString))) (hex acc)))))
+                           (app w1.w_wire acc)) acc), (WOk n0))
 
 type flres =
 | FlOk
@@ -4510,6 +4545,12 @@ type 'a outcome =
 | OCancel
 | OFuel
 | OPanic
+
+(** val mark_partial : world -> world -> n -> world **)
+
+let mark_partial before after len =
+  let k = N.sub (lenN after.w_wire) (lenN before.w_wire) in
+  if (&&) (N.ltb N0 k) (N.ltb k len) then upd_poison after true else after
 
 (** val write_all : nat -> bytes -> world -> world * unit outcome **)
 
@@ -4833,11 +4874,11 @@ let finish_mid fuel w = function
       | FlCancel -> (w2, OCancel))
    | OFail e ->
      (match e with
-      | EWriteZero -> (w1, (OFail EWriteZero))
+      | EWriteZero -> ((mark_partial w w1 (lenN bs)), (OFail EWriteZero))
       | _ -> ((w_hd w1), (OFail e)))
-   | OCancel -> (w1, OCancel)
-   | OFuel -> (w1, OFuel)
-   | OPanic -> (w1, OPanic))
+   | OCancel -> ((mark_partial w w1 (lenN bs)), OCancel)
+   | OFuel -> ((mark_partial w w1 (lenN bs)), OFuel)
+   | OPanic -> ((mark_partial w w1 (lenN bs)), OPanic))
 
 (** val op_publish : nat -> pub_req -> world -> world * op option outcome **)
 
@@ -4888,7 +4929,9 @@ let op_disconnect fuel d w =
   else (match disconnect_prepare w.w_sess d with
         | DPErr e -> (w, (OFail e))
         | DPOk bs ->
-          let (w1, r) = write_all fuel bs w in
+          let w0 = if has_partial w.w_sess.s_ob then upd_poison w true else w
+          in
+          let (w1, r) = write_all fuel bs w0 in
           (match r with
            | ODone _ ->
              let (w2, fr) = io_flush w1 in
@@ -4897,7 +4940,7 @@ let op_disconnect fuel d w =
               | FlFail -> ((w_hd w2), (OFail ETransport))
               | FlCancel -> (w2, OCancel))
            | OFail e -> ((w_hd w1), (OFail e))
-           | x -> (w1, x)))
+           | x -> ((mark_partial w0 w1 (lenN bs)), x)))
 
 (** val sess_hd : world -> world **)
 
@@ -6069,7 +6112,12 @@ let record_op w = function
 let run_action a w =
   match a with
   | AConnect chunks ->
-    let w0 = upd_txbuf (upd_inq (upd_live w false false N0) [] w.w_now) [] in
+    let w0 =
+      upd_poison
+        (upd_wire
+          (upd_txbuf (upd_inq (upd_live w false false N0) [] w.w_now) []) [])
+        false
+    in
     let w1 = fold_left (fun w1 c -> feed w1 (fst c) (snd c)) chunks w0 in
     let (w2, r) = op_connect fUEL w1 in
     let w3 =
@@ -6367,7 +6415,7 @@ let init_world c =
   { w_sess = (session_new c.c_cfg); w_conn = false; w_live = false; w_event =
     N0; w_now = N0; w_inq = []; w_last_arrival = N0; w_txbuf = []; w_script =
     c.c_script; w_broker = N0; w_log = []; w_handles = []; w_waits = N0;
-    w_envok = true }
+    w_envok = true; w_wire = []; w_poison = false }
 
 (** val run_case : case -> world **)
 
